@@ -244,7 +244,7 @@ VARIANTS += [
     V('G-rn-11', 'E', ALL, ST, 'EagerBatcher.__iter__', r'\bbatch\b', 'chunk', count=0),
     V('G-rn-12', 'E', ALL, SO, 'SocketClient.stream._enqueue', r'\btt\b', 'outq', count=0),
     V('G-rn-13', 'E', ALL, SP, 'RebuildProxy', r'\bobj\b', 'proxy', count=0),
-    V('G-rn-14', 'E', ALL, RE, 'RemoteException.__init__', r'(?<![.\w])tb\b(?!:)', 'text', count=0, note='renames the local only; the parameter keeps its name in the signature'),
+    V('G-rn-14', 'E', ALL, RE, 'RemoteException.__init__', r'(?<![.\w])tb\b', 'text', count=0, note='the traceback parameter / local renamed throughout the constructor'),
     V('G-rn-15', 'E', ALL, SA, 'AsyncBuffer._run_worker.main', r'\bq\b', 'outq', count=0),
     V('G-rn-16', 'E', ALL, ST, 'async_fifo_stream', r'\bcancelled_tasks\b', 'pending', count=0),
     # small behaviour-preserving restructurings
